@@ -573,7 +573,7 @@ def _terminates(body):
     return bool(body) and isinstance(body[-1], (ast.Return, ast.Raise, ast.Continue, ast.Break))
 
 
-def double_consumption(fn, name):
+def double_consumption(fn, name, binding=None):
     """first statement on some path through `fn` that iterates the parameter `name` after an earlier statement already did; None when there is none"""
     hit = []
 
@@ -634,6 +634,9 @@ def double_consumption(fn, name):
                 for h in st.handlers:
                     walk(h.body, consumed)
                 consumed = walk(st.finalbody, walk(st.orelse, consumed))
+                continue
+            if st is binding:
+                consumed = False         # the iterable is created here
                 continue
             # re-binding the name materialises / replaces it: stop
             if isinstance(st, ast.Assign) and any(isinstance(t, ast.Name) and t.id == name for t in st.targets):
@@ -725,6 +728,25 @@ def check_single_use(repo, chk, pid):
                         chk.bad(oid, 'R19', site(repo, ckey[0], ckey[1], c), norm(c)[:120],
                                 f'{key[1]} iterates its parameter {pname} more than once on some path (again at line {h.lineno}: {norm(h)[:40]}), and this call hands it {su}: '
                                 'the first pass exhausts it, so the second pass sees nothing and the elements it was meant to process are silently dropped')
+    # a LOCAL single-use iterable (a generator expression, map / filter / zip / iter(..)) that the function itself consumes twice on some path:
+    # the second consumer sees nothing
+    for key in sorted(mine):
+        fn = ix.funcs[key]
+        stores = {}
+        for n_ in ast.walk(fn):
+            if isinstance(n_, ast.Name) and isinstance(n_.ctx, ast.Store):
+                stores[n_.id] = stores.get(n_.id, 0) + 1
+        for n_ in ast.walk(fn):
+            if isinstance(n_, ast.Assign) and len(n_.targets) == 1 and isinstance(n_.targets[0], ast.Name) and stores.get(n_.targets[0].id) == 1:
+                v = n_.value
+                single = isinstance(v, ast.GeneratorExp) or (isinstance(v, ast.Call) and isinstance(v.func, ast.Name) and v.func.id in ('map', 'filter', 'zip', 'iter', 'reversed', 'enumerate'))
+                if not single:
+                    continue
+                h_ = double_consumption(fn, n_.targets[0].id, binding=n_)
+                if h_ is not None:
+                    n_sites += 1
+                    chk.bad(oid, 'R19', site(repo, key[0], key[1], h_), f'{norm(n_)[:70]} ... {norm(h_)[:40]}', f'`{n_.targets[0].id}` is a single-use iterable (a generator / map / filter / zip object) and is consumed a second '
+                            'time on this path: the second consumer finds it exhausted, so whatever it was to enumerate is silently empty')
     chk.ok(oid, 'R19', 'outrank/', 'single-use iterables handed to functions that iterate a parameter twice', f'{len(twice)} function(s) of the package iterate a parameter more than once on some path; '
            f'{n_sites} call site(s) on this property\'s path inspected, none passes a generator / iterator there', inspected=max(1, n_sites))
 
@@ -1306,7 +1328,36 @@ def check_accumulators(repo, chk, pid):
     chk.ok(oid, 'R13', 'outrank/', 'accumulators read after a loop', f'{len(funcs)} function(s) on this property\'s path: none re-creates inside a loop a container it reads after the loop', inspected=max(1, len(funcs)))
 
 
+# ---------------------------------------------------------------------------
+# H11 - dict.fromkeys(keys, <mutable>) gives every key the SAME object
+# ---------------------------------------------------------------------------
+
+def check_fromkeys(repo, chk, pid):
+    roots = ROOTS.get(pid)
+    if not roots:
+        return
+    ix = index(repo)
+    oid = f'{pid}.H11'
+    funcs = set(ix.closure(roots, False))
+    # the constructors of the classes these functions belong to build the state they work on
+    for k in list(funcs):
+        c = ix.cls_of.get(k)
+        if c and (k[0], f'{c}.__init__') in ix.funcs:
+            funcs.add((k[0], f'{c}.__init__'))
+    for key in sorted(funcs):
+        for n in ast.walk(ix.funcs[key]):
+            if isinstance(n, ast.Call) and isinstance(n.func, ast.Attribute) and n.func.attr == 'fromkeys' and isinstance(n.func.value, ast.Name) and n.func.value.id in ('dict', 'OrderedDict', 'defaultdict') and len(n.args) == 2:
+                v = n.args[1]
+                mutable = isinstance(v, (ast.List, ast.Dict, ast.Set)) or (isinstance(v, ast.Call) and ast.unparse(v.func) in MUTABLE_CTORS)
+                if mutable:
+                    chk.bad(oid, 'R11', site(repo, key[0], key[1], n), norm(n)[:100], 'dict.fromkeys(keys, <mutable object>) binds every key to the SAME object: what is appended under one key shows up under all of them '
+                            '(here: the sections of the self-description share one list)')
+                    return
+    chk.ok(oid, 'R11', 'outrank/', 'dict.fromkeys with a mutable default', f'{len(funcs)} function(s) inspected: none shares one mutable object between keys', inspected=max(1, len(funcs)))
+
+
 def run(repo, chk, pid):
+    check_fromkeys(repo, chk, pid)
     check_accumulators(repo, chk, pid)
     check_cache_results(repo, chk, pid)
     check_memos(repo, chk, pid)
